@@ -68,6 +68,15 @@ impl<E: FieldElement, H: ElementHasher<BaseField = E::BaseField>> VerifierChanne
         if E::BaseField::get_modulus_le_bytes() != context.field_modulus_bytes() {
             return Err(VerifierError::InconsistentBaseField);
         }
+
+        // a GKR proof must be present exactly when the AIR has a Lagrange kernel column; a proof
+        // that carries one the verifier would never look at is not a proof for this AIR
+        if air.context().has_lagrange_kernel_aux_column() != gkr_proof.is_some() {
+            return Err(VerifierError::ProofDeserializationError(
+                "GKR proof must be provided if and only if the trace has a Lagrange kernel column"
+                    .to_string(),
+            ));
+        }
         let constraint_frame_width = air.context().num_constraint_composition_columns();
 
         let num_trace_segments = air.trace_info().num_segments();
